@@ -19,7 +19,7 @@ RULE = ('case = outcome word over {delivered+acked, uplink lost, ack lost} (ALL 
         'submission schedule, observed frame-sequence hash).')
 ASSUMPTIONS = ['peer model = nRF51 ESB safelink rules (see vf/radiosim.py)', 'each transmission costs 1 ms of virtual time',
                'null packet = header 0xFF/0xF3 with empty payload; the 3-byte ff 05 01 negotiation frame is not data']
-REQUIRED = ['mon.acknowledgements_without_payload', 'mon.words_exhaustive', 'mon.random_words', 'mon.uplink_packets', 'mon.downlink_packets', 'mon.downlink_header_only_packets', 'mon.uplink_header_only_packets', 'mon.link_errors_expected',
+REQUIRED = ['mon.downlink_link_service_packets_with_data', 'mon.acknowledgements_without_payload', 'mon.words_exhaustive', 'mon.random_words', 'mon.uplink_packets', 'mon.downlink_packets', 'mon.downlink_header_only_packets', 'mon.uplink_header_only_packets', 'mon.link_errors_expected',
             'mon.negotiation_loss_cases', 'mon.no_safelink_cases', 'mon.full_stack_cases', 'mon.multi_submitter_cases',
             'mon.second_start_up_of_the_same_driver_object']
 EXHAUSTIVE = {'quick': False, 'thorough': False}
@@ -46,13 +46,17 @@ def cases(tier, seed):
     return out
 
 
-def mkpk(uid, rnd, header_only_ok=False):
+def mkpk(uid, rnd, header_only_ok=False, link_service_ok=False):
     """(header, payload) of a data packet; port/channel never 15/3 with empty payload.  Downlink packets may consist of
     the header alone (a CRTP packet without payload is one byte on the air, like a null packet, but is data)."""
     port = rnd.choice((0, 2, 3, 4, 5, 6, 7, 8, 13, 15))
     chan = rnd.randrange(4)
     if port == 15 and chan == 3:
         chan = 0
+    if link_service_ok and rnd.random() < 0.1:
+        # a packet of the link service itself (port 15 channel 3) that carries data: the signal-strength report (0x01,
+        # rssi), also in its shortest and longer forms; to the driver it is a packet like any other
+        return (0xFF, bytes([1]) + bytes(rnd.getrandbits(8) for _ in range(rnd.choice((0, 0, 1, 1, 2)))))
     if header_only_ok and rnd.random() < 0.15:
         return (port << 4 | 0x0C | chan, b'')
     n = rnd.randint(0, 28)
@@ -69,7 +73,7 @@ def one(ctx, word, n_up, n_down, sub_pos, down_pos, N, safelink=True, nsub=1, ss
     rnd = random.Random(sseed)
     # (header-only uplink packets only with one submitter: they carry no id to attribute them to a submitter)
     ups = [mkpk(1000 + i, rnd, header_only_ok=(nsub == 1)) for i in range(n_up)]
-    downs = [mkpk(2000 + i, rnd, header_only_ok=True) for i in range(n_down)]
+    downs = [mkpk(2000 + i, rnd, header_only_ok=True, link_service_ok=True) for i in range(n_down)]
     peer = radiosim.Peer(supports_safelink=safelink, echo_garbage=garbage, bare_idle=((sseed // 2) % 3 == 0))
     radio = radiosim.ScriptedRadio(peer, [SYM[x] if isinstance(x, int) else x for x in word])
     ob = {'errors': [], 'accepted_by_send': [], 'received': [], 'needs_resending': None, 'refused': []}
@@ -236,6 +240,7 @@ def one(ctx, word, n_up, n_down, sub_pos, down_pos, N, safelink=True, nsub=1, ss
         deq = [((p[0] | 0x0C), p[1:]) for p in peer.dequeued]
         ctx.count('mon.downlink_packets', len(deq))
         ctx.count('mon.downlink_header_only_packets', sum(1 for q in deq if not q[1]))
+        ctx.count('mon.downlink_link_service_packets_with_data', sum(1 for q in deq if (q[0] & 0xF3) == 0xF3 and q[1]))
         if rec != deq and rec != deq[:-1]:
             dup = len(rec) != len(set(rec))
             V('radio:downlink-%s' % ('packet-duplicated' if dup else ('packet-lost' if len(rec) < len(deq) else 'order-or-content-differs')),
@@ -338,7 +343,7 @@ def run_stack(desc, ctx, rnd):
     peer = radiosim.Peer()
     dev.peers[(chan, rate, addr)] = peer
     ups = [mkpk(1000 + i, rnd, header_only_ok=True) for i in range(rnd.randint(1, 25))]
-    downs = [mkpk(2000 + i, rnd, header_only_ok=True) for i in range(rnd.randint(1, 25))]
+    downs = [mkpk(2000 + i, rnd, header_only_ok=True, link_service_ok=True) for i in range(rnd.randint(1, 25))]
     for d in downs:
         peer.queue(bytes([d[0]]) + d[1])
     ob = {'rec': [], 'err': [], 'sent_ok': 0}
